@@ -554,6 +554,135 @@ CONTROLS = ['control:scaling-objective', 'control:aggscaling-damped']
 STRESS_ONLY = {'linsolve-cg-mag-opposite'}
 
 
+def tree_signals(netobj):
+    """every signal of a (nested) network, collected by walking the MEMBER TREE (not Network.sig_in / sig_out); the base
+    signal of a slice is included"""
+    seen, out = set(), []
+
+    def add(s):
+        while s is not None and id(s) not in seen:
+            seen.add(id(s))
+            out.append(s)
+            s = getattr(s, 'base', None)
+
+    def go(m):
+        if hasattr(m, 'mods'):
+            for x in m.mods:
+                go(x)
+        else:
+            for s in list(m.sig_out) + list(m.sig_in):
+                add(s)
+    go(netobj)
+    return out
+
+
+def leftovers(netobj):
+    """tags of the signals of the member tree that hold a non-zero sensitivity"""
+    left = []
+    for s in tree_signals(netobj):
+        v = s.sensitivity
+        if v is None:
+            continue
+        if hasattr(v, 'todense') and not isinstance(v, np.ndarray):
+            v = v.todense()
+        if hasattr(v, 'toarray'):
+            v = v.toarray()
+        if np.any(np.asarray(v) != 0):
+            left.append(str(getattr(s, 'tag', '?')))
+    return left
+
+
+
+# ============================================================================ construction histories of the network
+# The recipes build their network in one go, Network(m1, ..., mk).  A construction plan puts the SAME module objects
+# together by single append() calls instead: inner networks are placed in the outer one while still empty and are
+# extended afterwards (by modules and by further networks), optionally with an evaluation of the partially built outer
+# network before every extension.  The member tree differs, the flat depth-first order (hence the behaviour, C02) is
+# the same; the reference is always the network constructed in one go.
+PLANS = ['flat', 'late-fill', 'deep-late-fill', 'grown']
+
+
+def rebuild(pym, net, plan, data_seed=0):
+    """replaces net['net'] by a network of the same modules constructed according to `plan`; returns a description"""
+    if plan in (None, 'flat'):
+        return 'Network(m1..mk)'
+    mods = list(net['net'].mods)
+    k = len(mods)
+    g = np.random.default_rng(data_seed + 7)
+    log = []
+
+    def evaluate(outer):
+        # one design iteration of the partially built network whose seeds stay behind (no reset)
+        for name in sorted(net['inputs']):
+            net['sigs'][name].state = np.array(net['inputs'][name](g), copy=True)
+        outer.response()
+        for name in net['seedable']:
+            st = net['sigs'][name].state
+            if st is not None and any(s is net['sigs'][name] for s in tree_signals(outer)):
+                w = make_seed(g, st, 'full')
+                net['sigs'][name].sensitivity = np.array(w, copy=True) if np.ndim(w) else w
+        try:
+            outer.sensitivity()
+        except Exception as e:
+            if 'singular' not in str(e):
+                raise
+            outer.reset()
+        log.append('response; seeds; sensitivity')
+    grown = plan == 'grown' and not net.get('track_guess')
+    created = []
+    if plan in ('late-fill', 'grown'):
+        a = (k - 1) // 2            # the later modules (solvers, eigensolvers, objective) arrive in the nested network
+        outer = pym.Network(*mods[:a])
+        inner = pym.Network()
+        outer.append(inner)
+        created += [outer, inner]
+        log.append(f'outer = Network(m1..m{a}); outer.append(inner = Network())')
+        for j in range(a, k):
+            if grown and j > 0:
+                evaluate(outer)
+            if j == k - 1 and k - a >= 2:
+                inner2 = pym.Network()
+                inner.append(inner2)
+                inner2.append(mods[j])
+                created.append(inner2)
+                log.append(f'inner.append(inner2 = Network()); inner2.append(m{j + 1})')
+            else:
+                inner.append(mods[j])
+                log.append(f'inner.append(m{j + 1})')
+    elif plan == 'deep-late-fill':
+        outer, inner, inner2 = pym.Network(), pym.Network(), pym.Network()
+        created += [outer, inner, inner2]
+        outer.append(inner)
+        inner.append(inner2)
+        log.append('outer.append(inner); inner.append(inner2)')
+        a = max(1, k // 2)
+        for j in range(a):
+            inner2.append(mods[j])
+        for j in range(a, k):
+            inner.append(mods[j])
+        log.append(f'inner2.append(m1) .. (m{a}); inner.append(m{a + 1}) .. (m{k})')
+    else:
+        raise ValueError(plan)
+    flat = []
+
+    def go(m):
+        for x in m.mods:
+            if any(x is c for c in created):
+                go(x)
+            else:
+                flat.append(x)
+    go(outer)
+    if len(flat) != k or any(x is not y for x, y in zip(flat, mods)):
+        raise RuntimeError('harness: the constructed network does not have the flat order of the recipe')
+    if grown:
+        # the history that follows draws inputs of other shapes / value kinds: seeds of the construction phase are not
+        # "current seeds" of it (they stayed behind across every extension; now the completed network is cleaned)
+        outer.reset()
+        log.append('reset')
+    net['net'] = outer
+    return '; '.join(log)
+
+
 # ============================================================================ observations
 def canon(v):
     """state / sensitivity -> dense float (or complex) ndarray, or None"""
@@ -725,12 +854,16 @@ def stress_plans(npieces, nalt):
     return [(i % npieces, seqs[i % len(seqs)]) for i in range(n)]
 
 
-def run_stress(pym, fm, recipe, seed, focus, regimes, stats=None):
+def run_stress(pym, fm, recipe, seed, focus, regimes, stats=None, build='flat'):
     """deliberate history; every reset(); seeds; sensitivity() pass is compared with a fresh network.
+    build: construction plan of the network the history runs on (PLANS); the fresh networks are constructed in one go.
     returns (failed predicates, replayable description)"""
     g = np.random.default_rng(seed)
     data_seed = int(g.integers(0, 2 ** 31))
     net = build_lib(pym, fm, recipe, np.random.default_rng(data_seed))
+    built = rebuild(pym, net, build, data_seed)
+    if stats:
+        stats('library-construction:' + str(build))
     tol = net['tol']
     failed, log, cur, skipped = [], [], {}, []
     N = net['net']
@@ -759,6 +892,8 @@ def run_stress(pym, fm, recipe, seed, focus, regimes, stats=None):
             for k, s in net['sigs'].items():
                 if not close(canon(s.sensitivity), None):
                     failed.append(f'pass {len(log)}: reset leaves a sensitivity on {k}')
+            for tag in leftovers(N):        # every signal of the nested structure, found by walking the member tree
+                failed.append(f'pass {len(log)}: reset leaves a sensitivity on the signal {tag} of the member tree')
         seeds = seeds_for(g, net, spec)
         put_seeds(net, seeds)
         if spec[0] == 'none':
@@ -814,7 +949,10 @@ def run_stress(pym, fm, recipe, seed, focus, regimes, stats=None):
     for k, s in net['sigs'].items():
         if not close(canon(s.sensitivity), None):
             failed.append(f'final reset leaves a sensitivity on {k}')
-    return failed, dict(recipe=recipe, kind='stress', seed=int(seed), focus=int(focus), regimes=list(regimes), ops=log,
+    for tag in leftovers(N):
+        failed.append(f'final reset leaves a sensitivity on the signal {tag} of the member tree')
+    return failed, dict(recipe=recipe, kind='stress', seed=int(seed), focus=int(focus), regimes=list(regimes), build=build,
+                        construction=built, ops=log,
                         skipped_K02=skipped, **(dict(guess_ratio=guess['ratio']) if net.get('track_guess') else {}))
 
 
@@ -841,11 +979,14 @@ def lib_history(g, net, nops):
     return ops
 
 
-def run_lib(pym, fm, recipe, seed, nops, stats=None):
+def run_lib(pym, fm, recipe, seed, nops, stats=None, build='flat'):
     """random history run vs fresh run; returns list of failed predicates (strings) and a replayable description"""
     g = np.random.default_rng(seed)
     data_seed = int(g.integers(0, 2 ** 31))
     net = build_lib(pym, fm, recipe, np.random.default_rng(data_seed))
+    built = rebuild(pym, net, build, data_seed)
+    if stats:
+        stats('library-construction:' + str(build))
     tol = net['tol']
     cur = {}
     for k in sorted(net['inputs']):
@@ -888,6 +1029,8 @@ def run_lib(pym, fm, recipe, seed, nops, stats=None):
     for k, s in net['sigs'].items():
         if not close(canon(s.sensitivity), None):
             failed.append(f'reset leaves a sensitivity on {k}')
+    for tag in leftovers(net['net']):
+        failed.append(f'reset leaves a sensitivity on the signal {tag} of the member tree')
     # final cycle: with new inputs and a new response, or (when the last response is still current) without one
     without_response = responded and g.random() < 0.3
     if not without_response:
@@ -916,7 +1059,8 @@ def run_lib(pym, fm, recipe, seed, nops, stats=None):
     put_seeds(net, seeds)
     net['net'].sensitivity()
     compare(observe_all(net), fresh_cycle(pym, fm, recipe, data_seed, cur, seeds), tol, 'final cycle', failed, net['floor'])
-    return failed, dict(recipe=recipe, kind='random', seed=int(seed), nops=nops, ops=log, seeds=sorted(seeds))
+    return failed, dict(recipe=recipe, kind='random', seed=int(seed), nops=nops, build=build, construction=built, ops=log,
+                        seeds=sorted(seeds))
 
 
 # ============================================================================ bookkeeping observations (correspondence)
